@@ -89,7 +89,7 @@ func c18GenSchemaX(r *core.Rng, rich bool) (*yang.Stmt, *snode) {
 				sn.vals, sn.typeName = []string{""}, "empty"
 			case 4:
 				s.Add(yang.S("type", "identityref", yang.S("base", "ids:base-id")))
-				sn.vals, sn.typeName = []string{"ids:near", "ids2:far"}, "identityref"
+				sn.vals, sn.typeName = []string{"ids:near", "ids2:far", "ids2:near"}, "identityref"
 			case 5:
 				s.Add(yang.S("type", "union", yang.S("type", "int8"), yang.S("type", "enumeration", yang.S("enum", "auto")), yang.S("type", "string", yang.S("length", "2"))))
 				sn.vals, sn.typeName = []string{"-5", "auto", "ab", "99"}, "union"
@@ -106,7 +106,7 @@ func c18GenSchemaX(r *core.Rng, rich bool) (*yang.Stmt, *snode) {
 			}
 			sn.rtype = yang.RTypeFromStmt(s.Find("type"), nil)
 			if sn.typeName == "identityref" {
-				sn.rtype = &yang.RType{Kind: "identityref", Idents: map[string]bool{"ids:near": true, "ids2:far": true}}
+				sn.rtype = &yang.RType{Kind: "identityref", Idents: map[string]bool{"ids:near": true, "ids2:far": true, "ids2:near": true}}
 			}
 			if sn.typeName != "empty" && r.Chance(1, 6) && allowMand {
 				s.Add(yang.S("mandatory", "true"))
@@ -167,6 +167,10 @@ func c18GenSchemaX(r *core.Rng, rich bool) (*yang.Stmt, *snode) {
 		}
 		if tdDef != nil && sn.def == nil && !sn.mandatory {
 			sn.def = tdDef
+		}
+		if sn.def != nil && !sn.mandatory && name != "k" && name != "k2" && r.Chance(1, 4) {
+			// a state leaf: its default is part of the decorated view like that of a configuration leaf
+			s.Add(yang.S("config", "false"))
 		}
 		return s, sn
 	}
